@@ -35,6 +35,7 @@ func (st *Struct) Caps() schema.Caps {
 	c.NoEnums = !st.useNode
 	c.ValueLists = !st.useNode
 	c.ConvSlices = !st.useNode
+	c.Embeds = st.useNode
 	return c
 }
 
@@ -83,7 +84,7 @@ func (st *Struct) typeOf(s *schema.Node) reflect.Type {
 	if t, ok := st.types[s]; ok {
 		return t
 	}
-	var fields []reflect.StructField
+	var fields, embedded []reflect.StructField
 	for _, c := range s.DataChildren() {
 		f := reflect.StructField{Name: fieldName(c.Name)}
 		switch c.Kind {
@@ -106,7 +107,15 @@ func (st *Struct) typeOf(s *schema.Node) reflect.Type {
 				f.Type = reflect.SliceOf(et)
 			}
 		}
-		fields = append(fields, f)
+		if c.Embed && st.useNode {
+			embedded = append(embedded, f)
+		} else {
+			fields = append(fields, f)
+		}
+	}
+	if len(embedded) > 0 {
+		// a struct embedded by value: its fields are promoted into this one
+		fields = append(fields, reflect.StructField{Name: "Emb", Type: reflect.StructOf(embedded), Anonymous: true})
 	}
 	t := reflect.StructOf(fields)
 	st.types[s] = t
